@@ -209,6 +209,12 @@ func genApiExpect(r *h.Rand) h.Case {
 		{`{{ x := includeIfExists("/lg2.jet") }}[{{gv}}]`, "[in:2][2]"},
 		{`{{ exec("/lg2.jet") }}[{{gv}}]`, "[2]"},
 		{`{{block lb2(p=1)}}{{include "/lg2.jet"}}{{end}}[{{gv}}]`, "[in:2][2]"},
+		// a Go function called in the header of a declaring range acts on the scope the range statement is in,
+		// like the header expression itself: what it declares is still there after {{end}}
+		{fmt.Sprintf(`{{range i, v := (apiLet("hq", %d) ? ls : li)}}<{{v}}>{{end}}[{{hq}}]`, v), fmt.Sprintf("LI[%d]", v)},
+		{fmt.Sprintf(`{{range k, v := (apiSetOrLet("hq", %d) ? ls : li)}}{{end}}[{{hq}}]`, v), fmt.Sprintf("[%d]", v)},
+		{fmt.Sprintf(`{{if true}}{{ d := 0 }}{{range v := (apiLet("hq", %d) ? ls : li)}}{{end}}<{{hq}}>{{end}}[{{isset(hq)}}]`, v), fmt.Sprintf("<%d>[false]", v)},
+		{fmt.Sprintf(`{{if w := (apiLet("hq", %d) ? 0 : 1); w}}<{{hq}}>{{end}}[{{isset(hq)}}]`, v), fmt.Sprintf("<%d>[false]", v)},
 		// SetOrLet: declares when only a global / default of that name exists, rebinds when a template variable exists
 		{fmt.Sprintf(`{{ d := 0 }}{{ apiSetOrLet("g", %d) }}[{{g}}]`, v), fmt.Sprintf("[%d]", v)},
 		{fmt.Sprintf(`{{ d := 0 }}{{ apiSetOrLet("len", %d) }}[{{len}}]`, v), fmt.Sprintf("[%d]", v)},
